@@ -470,6 +470,15 @@ STD_VARIANTS = {
 NEG = {"Eq": "Ne", "Ne": "Eq", "Lt": "Ge", "Ge": "Lt", "Gt": "Le", "Le": "Gt"}
 
 
+def type_head(ty):
+    """`a::B<..>` -> `a::B`; qualified-path types (`<T as Tr>::X`) are returned unchanged."""
+    t = ty.strip()
+    if t.startswith("<"):
+        return t
+    i = t.find("<")
+    return t if i == -1 else t[:i]
+
+
 def adt_of_type(ty):
     t = ty
     while t.startswith("&"):
@@ -478,7 +487,7 @@ def adt_of_type(ty):
             t = t[4:]
         if t.startswith("'"):
             t = t.split(" ", 1)[1] if " " in t else t
-    return strip_type_args(t)
+    return type_head(t)
 
 
 def variant_names(db, ty):
@@ -610,7 +619,7 @@ def refine_variant(db, inner, adt, name, out, depth):
     args = inner[2]
     if dn == "core::ops::try_trait::Try::branch" and args:
         ga = inner[1].get("ga") or [""]
-        selfty = strip_type_args(ga[0]) if ga else ""
+        selfty = type_head(ga[0]) if ga else ""
         x = peel(args[0])
         if selfty == "core::result::Result":
             nm = "Ok" if name == "Continue" else "Err"
